@@ -1,4 +1,5 @@
 \* events (v10) without an L1 head, FixL1None: served, properties hold
+\* measured (8 TLC workers shared over 3 runs): 185846 distinct / 423740 generated states, depth 20, 40.2s
 CONSTANTS NSubs = 1 NConn = 1 InitLen = 2 MaxLen = 4 MaxTag = 4 MaxReverts = 1 MaxL1 = 1 MaxPc = 0 MaxTx = 2 MaxGw = 0 MaxRecv = 0 MaxTicks = 0 MaxBack = 3 MaxGot = 6
   Ver = 10 Kinds <- KEvents StartAtL1 <- NoL1 NoLag = TRUE QuietSub = TRUE ReorgPrio = TRUE TeeStage = FALSE Window = FALSE FixL1None = TRUE FixL1Order = FALSE BlockIds <- BidsSmall
 INIT Init
